@@ -138,6 +138,22 @@ def evalProp (p : String) (y : Y) (d : Document) (o : Opts) (m : Mode) (vc : Boo
   | "C06" => some (projVerdict true true (C06m.proj oi) (C06m.proj om))
   | "C17" => some (projVerdict (C17.holds d o m oi) (C17.holds d o m om) (C17.proj oi) (C17.proj om))
   | "C18" => some (projVerdict (C18.holds d oi) (C18.holds d om) (C18.proj oi) (C18.proj om))
+  | "C01" =>
+    let hi := C01.holds d o m oi
+    let hm := C01.holds d o m om
+    let pi := Layout.proj p oi
+    let pm := Layout.proj p om
+    some { holdsImpl := hi.1, holdsModel := hm.1, projEqual := pi == pm, domain := hi.2.1,
+           why := if !hi.1 then hi.2.2 else if pi == pm then "" else firstDiff pi pm }
+  | "C02" =>
+    let hi := C02.holds d o m oi
+    let hm := C02.holds d o m om
+    let pi := Layout.proj p oi
+    let pm := Layout.proj p om
+    some { holdsImpl := hi.1, holdsModel := hm.1, projEqual := pi == pm, domain := (C01.holds d o m oi).2.1,
+           why := if !hi.1 then hi.2 else if pi == pm then "" else firstDiff pi pm }
+  | "C03" | "C04" | "C05" | "C09" | "C10" =>
+    some (projVerdict true true (Layout.proj p oi) (Layout.proj p om))
   | "C12" => some (projVerdict (C12.holds d o oi) (C12.holds d o om) (C12.proj oi) (C12.proj om))
   | "C13" => some (projVerdict (C13.holds d oi) (C13.holds d om) (C13.proj oi) (C13.proj om))
   | _ => none
@@ -237,6 +253,74 @@ def handleResolved (req : Json) : Json :=
         ("wildcard_sections", jb r.wildcardSections), ("fill_value", jnatOpt r.fillValue),
         ("sections_subgroups", Json.mkObj (r.sectionsSubgroups.map fun (k, v) => (t2s k, jstrs v)))]).toArray)]
 
+/-- `docinfo` op: what the image-level checks need to know about the parsed document, with
+every symbol name computed by the model's `Style` table. -/
+def handleDocInfo (req : Json) : Json :=
+  let c := getObj req "case"
+  let o := getOpts c
+  match parseDocument (toY (getObj c "doc")) with
+  | .error e => Json.mkObj [("error", js (errName e))]
+  | .ok d =>
+    let st := d.settings.style
+    let single := d.settings.singleSegmentMode
+    let secInfo (seg : Segment) (noload : Bool) (sec : Str) : Json :=
+      Json.mkObj [("name", jstr sec), ("noload", jb noload),
+        ("start", jstr (st.secStart seg.name sec)), ("end", jstr (st.secEnd seg.name sec)),
+        ("size", jstr (st.secSize seg.name sec)),
+        ("start_aligns", Json.arr ((seg.sectionStartAlign.toList ++ (lookup sec seg.sectionsStartAlignment).toList).map fun (n : Nat) => Json.num ⟨(n : Int), 0⟩).toArray),
+        ("end_aligns", Json.arr ((seg.sectionEndAlign.toList ++ (lookup sec seg.sectionsEndAlignment).toList).map fun (n : Nat) => Json.num ⟨(n : Int), 0⟩).toArray),
+        ("subgroups", jstrs (subgroupsOf seg sec))]
+    let segInfo (seg : Segment) : Json :=
+      Json.mkObj [("name", jstr seg.name), ("emitted", jb (single || C06.specEmit o seg.cond)),
+        ("rom_start", jstr (st.segRomStart seg.name)), ("rom_end", jstr (st.segRomEnd seg.name)),
+        ("rom_size", jstr (st.segRomSize seg.name)), ("vram", jstr (st.segVramStart seg.name)),
+        ("vram_end", jstr (st.segVramEnd seg.name)), ("vram_size", jstr (st.segVramSize seg.name)),
+        ("alloc", Json.mkObj [("start", jstr (st.segVramStart (kindName seg false))), ("end", jstr (st.segVramEnd (kindName seg false))),
+                              ("size", jstr (st.segVramSize (kindName seg false)))]),
+        ("noload", Json.mkObj [("start", jstr (st.segVramStart (kindName seg true))), ("end", jstr (st.segVramEnd (kindName seg true))),
+                               ("size", jstr (st.segVramSize (kindName seg true)))]),
+        ("sections", Json.arr ((seg.allocSections.map (secInfo seg false)) ++ (seg.noloadSections.map (secInfo seg true))).toArray),
+        ("fixed_vram", jnatOpt seg.fixedVram),
+        ("fixed_symbol", match seg.fixedSymbol with | some s => jstr s | none => .null),
+        ("follows_segment", match seg.followsSegment with | some s => jstr s | none => .null),
+        ("follows_end_sym", match seg.followsSegment with | some s => jstr (st.segVramEnd s) | none => .null),
+        ("vram_class", match seg.vramClass with | some s => jstr s | none => .null),
+        ("start_align", jnatOpt seg.segmentStartAlign), ("end_align", jnatOpt seg.segmentEndAlign),
+        ("subalign", jnatOpt seg.subalign), ("wildcard", jb seg.wildcardSections),
+        ("gp", match seg.gpInfo with
+          | some g => if C06.specEmit o g.cond then Json.mkObj [("section", jstr g.sect), ("offset", .num ⟨g.offset, 0⟩)] else .null
+          | none => .null),
+        ("offsets", jstrs ((List.flatten (seg.files.map fun f => offsetsOf st o (confOf seg) f))))]
+    Json.mkObj [("single", jb single),
+      ("hardcoded_gp", jnatOpt d.settings.hardcodedGpValue),
+      ("segments", Json.arr (d.segments.map segInfo).toArray),
+      ("classes", Json.arr (d.vramClasses.map fun vc => Json.mkObj [("name", jstr vc.name),
+          ("start", jstr (st.classStart vc.name)), ("end", jstr (st.classEnd vc.name)), ("size", jstr (st.classSize vc.name)),
+          ("fixed_vram", jnatOpt vc.fixedVram),
+          ("fixed_symbol", match vc.fixedSymbol with | some s => jstr s | none => .null),
+          ("follows", jstrs vc.followsClasses),
+          ("follows_end_syms", jstrs (vc.followsClasses.map st.classEnd))]).toArray),
+      ("allowlist", jstrs (d.settings.sectionsAllowlist ++ d.settings.sectionsAllowlistExtra)),
+      ("denylist", jstrs d.settings.sectionsDenylist), ("discard_wildcard", jb d.settings.discardWildcardSection)]
+where
+  /-- included linker-offset entries whose section is configured for the segment -/
+  offsetsOf (st : Style) (o : Opts) (conf : List Str) : FileInfo → List Str
+    | .mk _ kind _ _ se lo _ fs _ c _ =>
+      if !C06.specEmit o c then [] else
+      (if kind = .linkerOffset ∧ se ∈ conf then [st.linkerOffset lo] else []) ++ offsetsOfList st o conf fs
+  offsetsOfList (st : Style) (o : Opts) (conf : List Str) : List FileInfo → List Str
+    | [] => []
+    | f :: fs => offsetsOf st o conf f ++ offsetsOfList st o conf fs
+  /-- the configured sections of a segment: its two lists and everything reachable through sub-groups -/
+  confOf (seg : Segment) : List Str :=
+    let rec close (fuel : Nat) (front acc : List Str) : List Str :=
+      match fuel with
+      | 0 => acc
+      | fuel + 1 =>
+        let next := (front.map (subgroupsOf seg)).flatten.filter (fun x => x ∉ acc)
+        if next.isEmpty then acc else close fuel next (acc ++ next)
+    close (seg.sectionsSubgroups.length + 1) (seg.allocSections ++ seg.noloadSections) (seg.allocSections ++ seg.noloadSections)
+
 def sortFs (fs : List (String × String)) : List (String × String) :=
   (fs.toArray.qsort (fun a b => a.1 < b.1)).toList
 
@@ -326,6 +410,20 @@ def handleCli (req : Json) : Json :=
         ++ ((imf.filter fun x => !(mf.any fun m => m.1 == x.1)).map fun x => js ("+" ++ x.1))).toArray),
     ("opts", optsParsed)]
 
+/-- `c11` op: one-step against partial generation (two harness answers for the same document). -/
+def handleC11 (req : Json) : Json :=
+  let c := getObj req "case"
+  let o := getOpts c
+  let vc := getBool c "version_comment" false
+  match parseDocument (toY (getObj c "doc")) with
+  | .error e => Json.mkObj [("error", js (errName e))]
+  | .ok d =>
+    let hi := C11.holds d o (obsOfImpl (getObj req "normal")) (obsOfImpl (getObj req "partial"))
+    let hm : Bool × String := match generate d o .normal vc, generate d o .partialLink vc with
+      | .ok a, .ok b => C11.holds d o (Obs.ofOutputs a) (Obs.ofOutputs b)
+      | _, _ => (false, "model did not generate both")
+    Json.mkObj [("holds_impl", jb hi.1), ("why", js hi.2), ("holds_model", jb hm.1), ("why_model", js hm.2)]
+
 def handle (req : Json) : Json :=
   match getStr req "op" with
   | "prune" => handlePrune req
@@ -333,6 +431,8 @@ def handle (req : Json) : Json :=
   | "files" => handleFiles req
   | "resolved" => handleResolved req
   | "cli" => handleCli req
+  | "docinfo" => handleDocInfo req
+  | "c11" => handleC11 req
   | _ => handleCheck req
 
 partial def loop (h : IO.FS.Stream) (out : IO.FS.Stream) : IO Unit := do
